@@ -38,7 +38,7 @@ type c06Policy struct {
 
 func (p *c06Policy) IsFunctionAllowed(n string) bool { return p.functions[n] }
 func (p *c06Policy) IsFilterAllowed(n string) bool   { return p.filters[n] }
-func (p *c06Policy) IsTagAllowed(string) bool         { return true }
+func (p *c06Policy) IsTagAllowed(string) bool        { return true }
 
 type c06Spy struct {
 	log []string
